@@ -196,6 +196,7 @@ func (w *World) TxnEvent(res Result, pre, post *Snap, extra rec.M) (rec.M, strin
 		"sum_is_supply": postSum.Cmp(new(big.Int).SetUint64(uint64(config.MaxTokenSupply))) == 0, "leaves_missing": missing, "changed_other": changedOther, "changed_all": changedAll,
 		"n_error_events": nErr, "n_foreign_events": nForeign,
 		"signed_ok": []pair{}, "free_tokens": 0, "panic": res.Panic != "",
+		"probe": false, "probe_fail": false, "queue": []pair{}, "squeue": []pair{}, "qpre": []pair{},
 	}
 	for k, v := range extra {
 		m[k] = v
